@@ -3,6 +3,8 @@
 package rhp_test
 
 import (
+	"path/filepath"
+	"context"
 	"fmt"
 	"net"
 	"strings"
@@ -111,6 +113,12 @@ func TestVerifC07Seq(t *testing.T) {
 		if err := node.Settings.UpdateSettings(s); err != nil {
 			t.Fatal(err)
 		}
+		res := make(chan error)
+		if _, err := node.Volumes.AddVolume(context.Background(), filepath.Join(t.TempDir(), "storage.dat"), 64, res); err != nil {
+			t.Fatal(err)
+		} else if err := <-res; err != nil {
+			t.Fatal(err)
+		}
 		testutil.MineAndSync(t, node, node.Wallet.Address(), int(network.MaturityDelay+5))
 		var err error
 		l, err = net.Listen("tcp", "localhost:0")
@@ -187,10 +195,17 @@ func TestVerifC07Seq(t *testing.T) {
 		cid := formed.ID()
 		// confirm it, so the wallet's change output is spendable for the next contract
 		testutil.MineAndSync(t, node, types.VoidAddress, 1)
-		if _, err := rpc2.RPCLock(transport, renterKey, cid); err != nil {
+		locked, err := rpc2.RPCLock(transport, renterKey, cid)
+		if err != nil {
 			t.Fatal(err)
 		}
-		costs := settings.RPCSectorRootsCost(0, 0)
+		// one sector, so that the sessions below can ask for a non-empty range of roots
+		sector := make([]byte, crhp2.SectorSize)
+		sector[0], sector[1] = byte(sc), byte(sc>>8)
+		if err := rpc2.RPCWrite(transport, renterKey, &locked, []crhp2.RPCWriteAction{{Type: crhp2.RPCWriteActionAppend, Data: sector}}, types.Siacoins(1).Div64(5), types.ZeroCurrency); err != nil {
+			t.Fatal("upload:", err)
+		}
+		costs := settings.RPCSectorRootsCost(0, 1)
 		cost, _ := costs.Total()
 
 		stored := func() types.FileContractRevision {
@@ -234,7 +249,7 @@ func TestVerifC07Seq(t *testing.T) {
 			num := from.RevisionNumber + st.bump
 			em.BeginCase(id, fmt.Sprintf("scenario %d step %d: from %s +%d pays %d/2 cost", sc%len(scenarios), si, st.from, st.bump, st.factor))
 			em.Count("from:" + st.from)
-			req := &crhp2.RPCSectorRootsRequest{RevisionNumber: num, ValidProofValues: vs, MissedProofValues: ms}
+			req := &crhp2.RPCSectorRootsRequest{RootOffset: 0, NumRoots: 1, RevisionNumber: num, ValidProofValues: vs, MissedProofValues: ms}
 			// sign the candidate as built from the revision the renter started from: a host working
 			// from that (stale) revision builds exactly this candidate, and a host working from the
 			// persisted one builds the same (only number and values come from the renter; addresses,
